@@ -273,10 +273,12 @@ def run_check(pid, tier, seed, replay, t0, debug=False):
         m = re.search(r'File "([^"]+)", line (\d+)[^\n]*\n(.*?)(?=\nmake|\Z)', log, flags=re.S)
         where = f"{m.group(1)}:{m.group(2)}: {' '.join(m.group(3).split())[:300]}" if m else log[-400:]
         broken.append(f"proof obligation no longer checks while building {props_vo}: {where}")
-    corr_vo = "theories/" + mod.COQ_IMPORT.replace(".", "/") + ".vo"
-    model_ok, mlog = make_target(corr_vo)
-    if not model_ok:
-        broken.append(f"model {corr_vo} no longer builds against the regenerated tables: {mlog[-300:]}")
+    model_ok = True
+    if mod.COQ_IMPORT:
+        corr_vo = "theories/" + mod.COQ_IMPORT.replace(".", "/") + ".vo"
+        model_ok, mlog = make_target(corr_vo)
+        if not model_ok:
+            broken.append(f"model {corr_vo} no longer builds against the regenerated tables: {mlog[-300:]}")
 
     assumptions = {}
     if proof_ok:
@@ -322,6 +324,10 @@ def run_check(pid, tier, seed, replay, t0, debug=False):
     if mismatches:
         broken.append(f"correspondence {mod.COQ_CHECK}: model and implementation disagree on "
                       f"{len(mismatches)} of {len(terms_idx)} cases")
+    n_extra = 0
+    if hasattr(mod, "extra_coq") and not replay:
+        msgs, n_extra = mod.extra_coq(cases, outcomes, proof_ok)
+        broken += msgs
 
     if debug:
         print(f"{len(mismatches)} mismatches, {len(oracle_fail)} oracle failures")
@@ -421,7 +427,7 @@ def run_check(pid, tier, seed, replay, t0, debug=False):
             "distinct_nontrivial": len(sigs),
             "rule": mod.RULE,
             "samples": samples,
-            "traces_validated_against_impl": len(terms_idx),
+            "traces_validated_against_impl": len(terms_idx) + n_extra,
             "model_impl_disagreements": len(mismatches),
             "oracle_failures": len(oracle_fail),
             "case_kinds": dist,
